@@ -56,6 +56,21 @@ def gen(tier, seed):
                     yield 'aead_inc 20 %s %s %s E %s fin' % (k, nn, ' '.join(a_steps), ' '.join(partition(rng, pt, ['e', 'em'], style)))
                     a_steps = partition(rng, aad, ['a'], style)
                     yield 'aead_inc 20 %s %s %s D %s fin.%s' % (k, nn, ' '.join(a_steps), ' '.join(partition(rng, ct, ['d', 'dm'], style)), tag.hex())
+    # pieces whose length is exactly a keystream block (or a MAC block) multiple, delivered from a position that is not block aligned,
+    # and the other way round (a shortcut for "exactly one block" / "whole blocks" must look at the cached partial block first)
+    for i in range(120 if thorough else 24):
+        kl = rng.choice([16, 32]); key, nonce = rng.bytes(kl), rng.bytes(12)
+        aad, pt = rng.bytes(rng.choice([0, 5, 16, 20, 64, 77])), rng.bytes(rng.rng(130, 420))
+        ct, tag = o.aead_encrypt(key, nonce, aad, pt)
+        def blocky(data, kinds):
+            first = rng.choice([1, 5, 10, 16, 33, 48, 63, 64])
+            cuts = [0, min(first, len(data))]
+            while cuts[-1] < len(data):
+                cuts.append(min(len(data), cuts[-1] + rng.choice([64, 64, 64, 128, 16, 32, 192, 63, 65])))
+            return ' '.join('%s.%s' % (rng.choice(kinds), data[a:b].hex() or '-') for a, b in zip(cuts, cuts[1:]))
+        acuts = blocky(aad, ['a']) if aad else 'a.-'
+        yield 'aead_inc 20 %s %s %s E %s fin #blocky' % (key.hex(), nonce.hex(), acuts, blocky(pt, ['e', 'em']))
+        yield 'aead_inc 20 %s %s %s D %s fin.%s #blocky' % (key.hex(), nonce.hex(), acuts, blocky(ct, ['d', 'dm']), tag.hex())
     # other round counts
     for rounds in (8, 12):
         for _ in range(60 if thorough else 12):
